@@ -453,7 +453,14 @@ def check_special(case):
     v, m = case['v'], case['m']
     other = {'XXX_X01': copy_ref(T.message_ref(v, m))}
     text = 'MSH|^~\\&|A|B|C|D|20200101||%s|1|P|%s' % (S.msh9_text(v, m, R.DEFAULT_EC), v)
+    # headers from which no structure name can be read: the profile cannot have that structure either
+    nameless = ['MSH|^~\\&|A|B|C|D|20200101||ACK|1|P|%s' % v, 'MSH|^~\\&|A|B|C|D|20200101', 'MSH|^~\\&|A|B|C|D|20200101|||1|P|%s' % v,
+                'MSH|^~\\&|A|B|C|D|20200101||%s|1|P|%s' % (m.split('_')[0], v)]
     for what, fn in (('Message', lambda: Message(m, version=v, reference=other)), ('parse_message', lambda: P.parse_message(text, message_profile=other)),
+                     ('parse_message:one-part-type', lambda: P.parse_message(nameless[0], message_profile=other)),
+                     ('parse_message:header-ends-before-type', lambda: P.parse_message(nameless[1], message_profile=other)),
+                     ('parse_message:empty-type', lambda: P.parse_message(nameless[2], message_profile=other)),
+                     ('parse_message:type-without-event', lambda: P.parse_message(nameless[3], message_profile={})),
                      ('Message:empty-profile', lambda: Message(m, version=v, reference={})),
                      ('Message:lower-case', lambda: Message(m.lower(), version=v, reference=other)),
                      ('Message:capitalised', lambda: Message(m.capitalize(), version=v, reference=other)),
